@@ -526,17 +526,22 @@ func checkC01(p *Prog, r *Report) {
 }
 
 func checkSessionChunking(p *Prog, r *Report) {
-	fi := p.FuncByName("(*UDPSession).WriteBuffers")
+	wb := p.FuncByName("(*UDPSession).WriteBuffers")
 	send := p.Method("KCP", "Send")
-	recv := p.selfVar(fi)
-	mss := p.F(tFld(tVar(recv), p.Field("UDPSession", "kcp")), "KCP", "mss")
-	fa := p.FactsOf(fi)
-	c := p.CFG(fi)
 	n := 0
 	for _, s := range p.CallsTo(send) {
-		if s.Fn != fi {
+		// in WriteBuffers itself or in a helper only WriteBuffers calls (the splitting loop extracted)
+		if _, part := p.liftInto(s.Fn, s.Call, wb); !part {
 			continue
 		}
+		fi := s.Fn
+		recv := p.selfVar(rootFuncInfo(fi))
+		if recv == nil {
+			continue
+		}
+		mss := p.F(tFld(tVar(recv), p.Field("UDPSession", "kcp")), "KCP", "mss")
+		fa := p.FactsOf(fi)
+		c := p.CFG(fi)
 		n++
 		arg := s.Call.Args[0]
 		construct := "kcp.Send(" + exprString(arg) + ")"
@@ -579,7 +584,7 @@ func checkSessionChunking(p *Prog, r *Report) {
 		}
 	}
 	if n == 0 {
-		r.bad("C01.S9", fi.Name, p.Pos(fi.Node), "chunking", "WriteBuffers never calls kcp.Send", "")
+		r.bad("C01.S9", wb.Name, p.Pos(wb.Node), "chunking", "WriteBuffers never calls kcp.Send", "")
 	}
 }
 
@@ -675,12 +680,45 @@ func checkReadCarryOver(p *Prog, r *Report) {
 		}
 		if dst.Op == "fld" && dst.Obj == fRecvbuf {
 			// the last store to recvbuf before the call, in the same block, is recvbuf = recvbuf[:size]
-			ok := false
+			// on every path to the call the last store to recvbuf gives it exactly the message size:
+			// recvbuf = recvbuf[:size] or recvbuf = make([]byte, size)
 			pt, _ := c.PointOf(s.Call)
-			for i := 0; i < pt.I; i++ {
-				if as, isA := pt.B.Nodes[i].(*ast.AssignStmt); isA && len(as.Lhs) == 1 && len(as.Rhs) == 1 && p.Term(as.Lhs[0]).Key() == dst.Key() {
-					rt := p.Term(as.Rhs[0])
-					ok = rt.Op == "slice" && rt.Args[0].Key() == dst.Key() && rt.Args[1] == nil && rt.Args[2] != nil && rt.Args[2].Key() == size.Key()
+			storeKind := func(nd ast.Node) int { // 0 none, 1 exact, 2 other store
+				as, isA := nd.(*ast.AssignStmt)
+				if !isA {
+					return 0
+				}
+				k := 0
+				for i, l := range as.Lhs {
+					if p.Term(l).Key() != dst.Key() {
+						continue
+					}
+					k = 2
+					if i < len(as.Rhs) && len(as.Lhs) == len(as.Rhs) {
+						rt := p.Term(as.Rhs[i])
+						if rt.Op == "slice" && rt.Args[0].Key() == dst.Key() && rt.Args[1] == nil && rt.Args[2] != nil && rt.Args[2].Key() == size.Key() {
+							k = 1
+						}
+						if rt.Op == "builtin:make" && len(rt.Args) == 2 && rt.Args[1].Key() == size.Key() {
+							k = 1
+						}
+					}
+				}
+				return k
+			}
+			isExact := func(nd ast.Node, _ Point) bool { return storeKind(nd) == 1 }
+			ok := true
+			// (1) some exact store on every path from the entry
+			if res := c.FindPath(PathQuery{From: Point{c.Entry(), 0}, IsTarget: func(_ ast.Node, q Point) bool { return q == pt }, IsBarrier: isExact}); res.Found {
+				ok = false
+			}
+			// (2) no other store between the last exact one and the call
+			for _, q := range c.AllPoints() {
+				if storeKind(q.Node()) != 2 {
+					continue
+				}
+				if res := c.FindPath(PathQuery{From: Point{q.B, q.I + 1}, IsTarget: func(_ ast.Node, x Point) bool { return x == pt }, IsBarrier: isExact}); res.Found {
+					ok = false
 				}
 			}
 			r.check(ok, "C01.S10", fi.Name, p.Pos(s.Call), construct, "len(recvbuf) == PeekSize()", "the staging buffer is not cut to exactly the message size before Recv: the bytes carried over to the next Read include stale data (or the message does not fit); facts: "+pretty(fs.String()))
@@ -1295,15 +1333,16 @@ func checkWriteAccounting(p *Prog, r *Report) {
 	usesResult := true
 	n := 0
 	for _, s := range p.CallsTo(sendM) {
-		if rootFuncInfo(s.Fn) != wb {
+		at, part := p.liftInto(s.Fn, s.Call, wb)
+		if !part {
 			continue
 		}
 		n++
 		if _, isStmt := p.parents[s.Call].(*ast.ExprStmt); isStmt {
 			usesResult = false
 		}
-		pt, ok := c.PointOf(s.Call)
-		if !ok || s.Fn != wb {
+		pt, ok := c.PointOf(at)
+		if !ok {
 			continue
 		}
 		construct := "returns after " + exprString(s.Call.Fun) + "(" + exprString(s.Call.Args[0]) + ")"
